@@ -103,6 +103,29 @@ func c14Pair(w *rt.W, a, b sem.Ver) {
 			fail("latest-returned-lower", "Ver.Latest", fmt.Sprintf("returned %+v which compares %d to the other", l, x), "never the lower one")
 		}
 	}
+	// "never the lower one" by the order the statement names, not only by the library's own Compare (a Compare that
+	// calls two different versions equal is consistent with itself and with a Latest that returns either)
+	if !(sameCore && ref.ExcludedPair(a.PreRelease, b.PreRelease)) && (l == a || l == b) && a != b {
+		want := 0
+		for _, p := range [][2]uint64{{a.Major, b.Major}, {a.Minor, b.Minor}, {a.Patch, b.Patch}} {
+			if want == 0 && p[0] != p[1] {
+				want = 1
+				if p[0] < p[1] {
+					want = -1
+				}
+			}
+		}
+		if want == 0 {
+			want = ref.ComparePre(a.PreRelease, b.PreRelease)
+		}
+		w.Eval(1)
+		if (want > 0 && l != a) || (want < 0 && l != b) {
+			fail("latest-returned-lower-by-the-stated-order", "Ver.Latest", fmt.Sprintf("returned %+v", l), fmt.Sprintf("the higher one (reference order says cmp(a,b)=%d)", want))
+		}
+		if want != 0 {
+			w.ClassN("latest-judged-by-reference-order", 1)
+		}
+	}
 	if sameCore && ref.ExcludedPair(a.PreRelease, b.PreRelease) {
 		w.ClassN("pair-in-C06-excluded-zone", 1)
 	}
@@ -293,6 +316,7 @@ func runC14(c *rt.Ctx) {
 	})
 	c.Exhaustive(fmt.Sprintf("all ordered pairs of U_%d plus the explicit mixed identifiers (%d strings)", L, len(u)))
 	c.Require("pair-in-C06-excluded-zone", 1000)
+	c.Require("latest-judged-by-reference-order", 100000)
 	c.Require("pair-different-byte-lengths", 10000)
 
 	// identifier lists built from identifiers of different lengths that the comparator may rank equal
